@@ -162,6 +162,8 @@ class Recorder:
                 raise
             e["out"] = out
             e["S_after"] = set(S) if isinstance(S, set) else None
+            # what was done, observed right after the call (a later call may delete or replace the result)
+            e["op"] = fs_kind(sorted(self_fs.fspaths), sorted(out.fspaths), out is self_fs)
             return out
 
         FileSet.copy = copy
@@ -172,11 +174,16 @@ class Recorder:
 
 
 def fs_kind(src_paths: list[Path], out_paths: list[Path], same_object: bool) -> str:
-    """What was physically done, read off the file system."""
+    """What was physically done, read off the file system.  A path that is not there is an outcome ("missing"), never
+    an exception of the harness."""
     if same_object:
         return "leave"
+    if any(not os.path.lexists(p) for p in out_paths):
+        return "missing"
     if any(os.path.islink(p) for p in out_paths):
-        return "sym"
+        return "broken-sym" if any(os.path.islink(p) and not os.path.exists(p) for p in out_paths) else "sym"
+    if any(not os.path.lexists(p) for p in src_paths):
+        return "source-missing"
 
     def first_file(p: Path):
         if p.is_dir():
@@ -200,7 +207,9 @@ def fs_kind(src_paths: list[Path], out_paths: list[Path], same_object: bool) -> 
 
 
 def read_content(p: Path):
-    """Content of a path as a comparable value (follows symlinks)."""
+    """Content of a path as a comparable value (follows symlinks); a missing path is a value too."""
+    if not os.path.exists(p):
+        return {"missing": True}
     if p.is_dir():
         out = {}
         for dp, _dn, fn in os.walk(p):
@@ -364,7 +373,7 @@ def script_from_calls(calls: list[dict]) -> list[dict]:
         else:
             same = c["out"] is c["self"]
             e["out"] = sorted(str(p) for p in c["out"].fspaths)
-            e["op"] = fs_kind(sorted(c["self"].fspaths), sorted(c["out"].fspaths), same)
+            e["op"] = c["op"]
         out.append(e)
     return out
 
@@ -406,8 +415,8 @@ def contract_clauses(call: dict) -> dict:
     src, out = call["self"], call["out"]
     same = out is src
     sel = (mode_bits(call["mode"]) or 8) & (mode_bits(call["supported"]) if call["supported"] is not None else 15)
-    kind = fs_kind(sorted(src.fspaths), sorted(out.fspaths), same)
-    kind_bit = {"leave": 1, "hard": 2, "sym": 4, "copy": 8}[kind]
+    kind = call["op"]
+    kind_bit = {"leave": 1, "hard": 2, "sym": 4, "copy": 8}.get(kind, 0)
     res = {"allowed": bool(sel & kind_bit), "cls": type(out) is type(src)}
     Sb, Sa = call["S_before"], call["S_after"]
     if same:
